@@ -512,8 +512,8 @@ func runCheck(prop, tier string, seed int) int {
 		if _, ok := detached[fnOf(id)]; ok {
 			continue // covered by the bounded stand-in above
 		}
-		if strings.Contains(id, "/safety:") {
-			continue // a potentially panicking instruction that no longer exists needs no proof
+		if strings.Contains(id, "/safety:") || strings.Contains(id, "/call:") {
+			continue // a potentially panicking instruction or a call that no longer exists needs no proof
 		}
 		reallyMissing = append(reallyMissing, id)
 	}
@@ -709,9 +709,14 @@ func writeEvidence(prop, tier string, seed int, pc *PropConfig, frs []*FuncResul
 		"wall_s":      round3(wall),
 		"violations":  violations,
 	}
-	os.MkdirAll(filepath.Join(verifDir, "evidence"), 0o755)
+	evDir := filepath.Join(verifDir, "evidence")
+	if d := os.Getenv("GOVC_EVIDENCE_DIR"); d != "" {
+		// runs against deliberately broken trees (seeded changes, canaries) must not overwrite the evidence of the real tree
+		evDir = d
+	}
+	os.MkdirAll(evDir, 0o755)
 	data, _ := json.MarshalIndent(ev, "", " ")
-	os.WriteFile(filepath.Join(verifDir, "evidence", prop+".json"), data, 0o644)
+	os.WriteFile(filepath.Join(evDir, prop+".json"), data, 0o644)
 }
 
 func round3(f float64) float64 { return float64(int(f*1000+0.5)) / 1000 }
